@@ -189,7 +189,7 @@ def run(chk, replay=None):
     nsim = 400 if tier == "thorough" else 60
     behs = tlc.simulate("CacheFS_MC", MC_CFG.format(calls=5, crashes=2, dev="DevNone", invs=""), num=nsim, depth=45, seed=chk.seed + 1)
     sim_sched = [behaviour_to_schedule(b) for b in behs]
-    envs = [("width", None), ("width", 0), ("assume", None)] if tier == "quick" else [("width", None), ("width", 0), ("width", 7), ("assume", None), ("assume", 0)]
+    envs = [("width", None), ("width", 0), ("assume", None), ("minus", 0)] if tier == "quick" else [("width", None), ("width", 0), ("width", 7), ("assume", None), ("assume", 0), ("minus", 0), ("minus", 12345)]
 
     # sizes of the pickles are needed for the byte-prefix family: ask the executor once
     probe = run_executor("width", None, [])
